@@ -7,7 +7,6 @@ package embx
 // release method goes to the entitled address, not before its lock, with the recorded amount, and not twice.
 
 import (
-	"bytes"
 	"fmt"
 	"math/big"
 	"math/rand"
@@ -281,6 +280,8 @@ type release struct {
 	pays      []*big.Int    // expected amounts
 	zts       []types.ZenonTokenStandard
 	notBefore int64 // lock: frontier time (or height for fusions) must be >= this
+	floor     int64 // the contract's minimum lock: frontier time must be >= this whatever the entry says (0 = none)
+	preimage  int   // htlc unlock: 1 = the presented preimage opens the entry's lock under a supported hash, -1 = it does not (0 = n/a)
 	before    int64 // htlc unlock: must be < this (0 = none)
 	useHeight bool
 	ok        bool // entitlement checks that can be decided before the call (owner, preimage, proxy)
@@ -300,8 +301,10 @@ func (w *world) expectedRelease(c *contractDef, s *nom.AccountBlock) *release {
 		if err != nil {
 			return nil
 		}
+		// the entry's own expiration, and never before the shortest lock the contract offers has passed since its start
 		return &release{kind: "stake", key: "stake:" + s.Address.String() + id.String(), to: e.StakeAddress, pays: []*big.Int{new(big.Int).Set(e.Amount)},
-			zts: []types.ZenonTokenStandard{types.ZnnTokenStandard}, notBefore: e.ExpirationTime, ok: e.StakeAddress == s.Address}
+			zts: []types.ZenonTokenStandard{types.ZnnTokenStandard}, notBefore: e.ExpirationTime, floor: e.StartTime + constants.StakeTimeMinSec, ok: e.StakeAddress == s.Address,
+			why: fmt.Sprintf("start=%d expiration=%d minimum-lock=%d", e.StartTime, e.ExpirationTime, constants.StakeTimeMinSec)}
 	case c.Name == "plasma" && m == definition.CancelFuseMethodName:
 		id := new(types.Hash)
 		if definition.ABIPlasma.UnpackMethod(id, m, s.Data) != nil {
@@ -337,17 +340,17 @@ func (w *world) expectedRelease(c *contractDef, s *nom.AccountBlock) *release {
 		if m == definition.ReclaimHtlcMethodName {
 			r.to, r.notBefore, r.ok = h.TimeLocked, h.ExpirationTime, h.TimeLocked == s.Address
 		} else {
-			digest := crypto.Hash(pre)
-			if h.HashType == definition.HashTypeSHA256 {
-				digest = crypto.HashSHA256(pre)
-			}
+			// the preimage of the entry's hash lock under a SUPPORTED hash function (lockbounds.go); an entry whose hash type or
+			// lock length is outside the rules can be opened by nothing
+			opens := htlcPreimageOpens(h, pre)
 			allowed := true
 			if pi, err := definition.GetHtlcProxyUnlockInfo(w.storageOf(c.Addr), h.HashLocked); err == nil {
 				allowed = pi.Allowed
 			}
 			r.to, r.before = h.HashLocked, h.ExpirationTime
-			r.ok = bytes.Equal(digest, h.HashLock) && len(pre) <= int(h.KeyMaxSize) && (allowed || s.Address == h.HashLocked)
-			r.why = fmt.Sprintf("preimage-ok=%v len=%d max=%d proxy-allowed=%v by-hashlocked=%v", bytes.Equal(digest, h.HashLock), len(pre), h.KeyMaxSize, allowed, s.Address == h.HashLocked)
+			r.ok = opens && (allowed || s.Address == h.HashLocked)
+			r.preimage = map[bool]int{true: 1, false: -1}[opens]
+			r.why = fmt.Sprintf("preimage-opens-lock=%v hash-type=%d lock-len=%d preimage-len=%d max=%d proxy-allowed=%v by-hashlocked=%v", opens, h.HashType, len(h.HashLock), len(pre), h.KeyMaxSize, allowed, s.Address == h.HashLocked)
 		}
 		return r
 	case c.Name == "pillar" && m == definition.RevokeMethodName:
@@ -445,6 +448,9 @@ func (w *world) checkRelease(c *contractDef, s *nom.AccountBlock, r *release, bl
 		okTo = okTo && x.ToAddress == r.to
 	}
 	w.out.Oracle(okTo && r.ok, "payout-to-unentitled-party", d)
+	if r.preimage != 0 {
+		w.out.Oracle(r.preimage > 0, "htlc-released-without-preimage-of-its-hash-lock", d)
+	}
 	// on time
 	onTime := true
 	switch r.kind {
@@ -464,6 +470,9 @@ func (w *world) checkRelease(c *contractDef, s *nom.AccountBlock, r *release, bl
 	}
 	d["now"] = I64(now)
 	w.out.Oracle(onTime, "payout-before-lock-allows", d)
+	if r.floor != 0 {
+		w.out.Oracle(now >= r.floor, "payout-before-minimum-lock-of-the-contract", d)
+	}
 	// exact amount(s) of the recorded entry, each token once
 	okAmt := true
 	nonzero := 0
@@ -522,7 +531,13 @@ func (w *world) lockOp() {
 		}
 		return owner
 	}
-	switch rng.Intn(28) {
+	switch rng.Intn(34) {
+	case 28, 29:
+		w.boundaryStake()
+	case 30, 31, 33:
+		w.boundaryHtlc()
+	case 32:
+		w.boundaryFuse()
 	case 0, 1:
 		t := constants.StakeTimeUnitSec * int64(1+rng.Intn(3))
 		call(kp, types.StakeContract, znn, big.NewInt(int64(1+rng.Intn(30))*g.Zexp), definition.ABIStake.PackMethodPanic(definition.StakeMethodName, t), "stake.Stake")
